@@ -126,6 +126,9 @@ module.exports = {
     const files = corpus.list()
     const pick = ctx.tier === 'thorough' ? files : new Rng(ctx.seed, 'c14c').sample(files, 320)
     for (const c of chunk(pick, 40)) shards.push({ kind: 'corpus', items: c.map(f => ({ name: f.name, kind: f.kind })) })
+    // corpus files with operations (and literals) spliced onto random expression nodes
+    const ns = ctx.tier === 'thorough' ? 3000 : 240
+    for (let k = 0; k < ns / 60; k++) shards.push({ kind: 'splice', count: 60, stream: k })
     return shards
   },
   minEvaluations () { return 300 },
@@ -140,6 +143,8 @@ module.exports = {
         const p = genProgram(r, opts)
         js.push({ code: p.code, file: '/srv/app/lits/f' + (i % 9) + '.js', meta: { kind: 'gen', module: opts.module, crlf: opts.crlf, bom: opts.bom, planted: p.planted.length } })
       }
+    } else if (spec.kind === 'splice') {
+      js = require('../lib/gen_splice').splice(new Rng(ctx.seed, 'c14splice', spec.stream), corpus.list(), spec.count).map(p => ({ code: p.code, file: '/srv/app/lib/' + p.meta.name, meta: { kind: 'corpus', name: p.meta.name, module: p.meta.module, splices: p.meta.splices } }))
     } else js = spec.items.map(it => ({ code: corpus.read(it.name), file: '/srv/app/lib/' + it.name, meta: { kind: 'corpus', name: it.name, module: it.kind === 'module' } }))
     const variants = [['all', CFG_ALL], ['none', CFG_NONE], ['off', CFG_OFF], ['def', CFG_DEFAULT_LIT], ['cc', CFG_COMMENTS_CHAIN]]
     const jobs = []
